@@ -18,3 +18,6 @@ pub use emf::{
 
 #[cfg(metrique_verif)]
 pub use emf::verif_rate_to_n_alpha;
+
+#[cfg(metrique_verif)]
+pub use buf::verif_write_all_vectored;
